@@ -443,17 +443,33 @@ class C09(World):
             ctx.fail(oracle, "transform", f"get({to!r}, {frm!r}): {bad}; got {np.round(got, 6).tolist()} want {np.round(want, 6).tolist()}")
         if check_geom and geom != model.geom.get(to):
             ctx.fail(oracle, "geometry-name", f"get({to!r}, {frm!r}) geometry {geom!r} != {model.geom.get(to)!r}")
-        return got
+        # a careless caller: the answer is scribbled on (when the library lets that happen). Later answers must not change.
+        out = got.copy()
+        try:
+            got[0, 3] += 1.0
+            got[1, 1] *= -1.0
+            ctx.count("fault:answer-edited-in-place")
+        except (ValueError, TypeError):
+            ctx.count("probe:answer-is-read-only")
+        return out
 
     def _do(self, graph, model, op, ctx):
         k = op["op"]
         if k == "update":
             self._apply_model(model, op)  # raises Inapplicable before touching the graph
-            graph.update(frame_to=op["to"], frame_from=op["frm"], **update_kwargs(op))
+            kw = update_kwargs(op)
+            graph.update(frame_to=op["to"], frame_from=op["frm"], **kw)
+            # the caller re-uses its arrays afterwards: the graph must have taken its own copy
+            for v in kw.values():
+                if isinstance(v, np.ndarray) and v.size:
+                    v += 0.5
+            ctx.count("fault:argument-edited-after-update")
             return op["how"]
         if k == "setitem":
             self._apply_model(model, op)
-            graph[op["to"]] = np.array(op["matrix"], dtype=np.float64)
+            arg = np.array(op["matrix"], dtype=np.float64)
+            graph[op["to"]] = arg
+            arg += 0.5
             return "ok"
         if k == "remove_node":
             if op["node"] not in model.nodes or op["node"] == model.base:
